@@ -633,8 +633,18 @@ class PointsTo:
         elif isinstance(n, ast.Return) and n.value is not None and fn is not None:
             self._add(self.var, ("ret", fn.qual), self.pts(n.value, fn, mod))
             if isinstance(n.value, ast.Tuple):
-                for i, x in enumerate(n.value.elts):
-                    self._add(self.var, ("ret", fn.qual, i), self.pts(x, fn, mod))
+                pos = self._tuple_positions(n.value, fn)
+                if pos is not None:
+                    for i, (how, x) in enumerate(pos):
+                        if how == "expr":
+                            self._add(self.var, ("ret", fn.qual, i), self.pts(x, fn, mod))
+                        else:
+                            # the k-th element of a local list display spliced in with *: what the display holds there
+                            # plus whatever is stored into the list afterwards
+                            lit, k = x
+                            self._add(self.var, ("ret", fn.qual, i), self.pts(lit.elts[k], fn, mod))
+                            for o in self.pts(lit, fn, mod):
+                                self._add(self.var, ("ret", fn.qual, i), {e_ for e_ in self.getfield(o, ELEM) if not any(e_ in self.pts(y, fn, mod) for y in lit.elts)})
             elif isinstance(n.value, ast.Call):
                 for t in self.res.call_targets(n.value, fn, mod):
                     if t[0] == "pkg":
@@ -683,6 +693,22 @@ class PointsTo:
             for tt in target.elts:
                 self._assign(tt.value if isinstance(tt, ast.Starred) else tt, elems | objs, fn, mod, value, node)
 
+    def _tuple_positions(self, tup, fn):
+        """[('expr', node) | ('star', (list display, k))] per position of a tuple display; `*name` is expanded when name is a
+        local bound once to a list / tuple display.  None if a starred element cannot be expanded."""
+        out = []
+        for x in tup.elts:
+            if not isinstance(x, ast.Starred):
+                out.append(("expr", x))
+                continue
+            v = x.value
+            bl = self.res.bindings(fn).get(v.id, []) if isinstance(v, ast.Name) and fn is not None else []
+            if len(bl) != 1 or bl[0][0] != "value" or not isinstance(bl[0][1], (ast.List, ast.Tuple)) or any(isinstance(y, ast.Starred) for y in bl[0][1].elts):
+                return None
+            for k in range(len(bl[0][1].elts)):
+                out.append(("star", (bl[0][1], k)))
+        return out
+
     def _tuple_arity(self, f, seen):
         """Arity if every return of f is a tuple literal of one size (following `return g(...)`), else None."""
         if f in seen:
@@ -691,7 +717,8 @@ class PointsTo:
         ar = set()
         for r in self.res.return_exprs(f):
             if isinstance(r, ast.Tuple):
-                ar.add(len(r.elts))
+                pos = self._tuple_positions(r, f)
+                ar.add(len(pos) if pos is not None else None)
             elif isinstance(r, ast.Call):
                 sub = {self._tuple_arity(t[1], seen) for t in self.res.call_targets(r, f) if t[0] == "pkg"}
                 ar |= sub or {None}
